@@ -22,7 +22,7 @@ ASSUMPTIONS = ["scripted peer built on vlib/refproto (independent encoder of rep
 
 _SHIM = [False]
 
-APIS = ["md", "fc", "dr", "av", "hb"]
+APIS = ["md", "fc", "dr", "av", "hb", "pr0"]     # pr0: Produce with acks=0 - written, drained, never answered
 
 
 def setup():
@@ -44,16 +44,20 @@ def _build_request(kind):
         return DeleteRecordsRequest([("t", [(0, 1)])], 1000, tags={})
     if kind == "av":
         return ApiVersionRequest()
+    if kind == "pr0":
+        from aiokafka.protocol.produce import ProduceRequest
+        return ProduceRequest(transactional_id=None, required_acks=0, timeout=100, topics=[("t", [(0, b"")])])
     return HeartbeatRequest("g", 1, "m")
 
 
-def _reply_body(key, ver, marker):
+def _reply_body(key, ver, marker, tags=True):
     if key == 3:
         return {"throttle": marker, "brokers": [], "cluster_id": None, "controller_id": 0, "topics": []}
     if key == 10:
         return {"throttle": marker, "error": 0, "error_message": None, "node_id": 1, "host": "h", "port": 1}
     if key == 21:
-        return {"throttle_time_ms": marker, "topics": [], "_tags": {}}
+        # flexible version: unknown tagged fields (KIP-482) may follow, also empty ones; a client skips them
+        return {"throttle_time_ms": marker, "topics": [], "_tags": [{}, {0: b"ab"}, {5: b"", 9: b"xyz"}][marker % 3] if tags else {}}
     if key == 18:
         return {"error": 0, "api_versions": [], "throttle": marker}
     if key == 12:
@@ -65,7 +69,7 @@ def _marker_of(resp):
     return getattr(resp, "throttle_time_ms", None)
 
 
-VERSIONS = {3: (0, 5), 10: (0, 1), 21: (0, 2), 18: (0, 2), 12: (0, 1)}
+VERSIONS = {3: (0, 5), 10: (0, 1), 21: (0, 2), 18: (0, 2), 12: (0, 1), 0: (0, 7)}
 
 
 class Peer:
@@ -104,7 +108,12 @@ class Peer:
         c = self.case
         spec = c["requests"][i] if i < len(c["requests"]) else {"marker": 0, "delay": 0.001}
         delay = spec.get("delay", 0.001)
-        payload = RP.encode_response(key, ver, corr, _reply_body(key, ver, spec["marker"]))
+        if key == 0:
+            # acks=0: the broker appends and says nothing
+            self.reply_done_at[i] = self.loop._vtime
+            return
+        htags = [None, {1: b"\x07"}, {0: b"", 3: b"hdr"}][(spec["marker"] // 3) % 3]       # ignored for non-flexible headers
+        payload = RP.encode_response(key, ver, corr, _reply_body(key, ver, spec["marker"]), header_tags=htags)
         f = c.get("fault")
         chunks = c.get("chunks") or [0]
         if f and f["at"] == i:
@@ -130,6 +139,8 @@ class Peer:
                 extra = RP.encode_response(key, ver, 0 if zero else (corr + 77777) % 2 ** 31, _reply_body(key, ver, 424242))
                 conn.send_frame(extra, delay=delay, chunks=chunks)
             elif k == "truncated_body":
+                # (without tagged fields: a cut inside an unknown tagged field is not something a client can notice)
+                payload = RP.encode_response(key, ver, corr, _reply_body(key, ver, spec["marker"], tags=False))
                 cut = max(4, min(len(payload) - 1, f.get("byte", 5)))
                 conn.send_frame(payload[:cut], delay=delay, chunks=chunks)
             elif k == "neg_size":
@@ -177,14 +188,17 @@ async def _main(case, obs, loop, net):
             peer.fault_fired_at = loop._vtime
             peer.dead = True
         try:
-            fut = conn.send(_build_request(spec["api"]))
+            if spec["api"] == "pr0":
+                fut = conn.send(_build_request("pr0"), expect_response=False)      # what AIOKafkaClient.send() does
+            else:
+                fut = conn.send(_build_request(spec["api"]))
         except Exception as e:
             rec["send_error"] = (type(e).__name__, repr(e))
             rec["t_done"] = loop._vtime
             return
         try:
             resp = await fut
-            rec["result"] = _marker_of(resp)
+            rec["result"] = spec["marker"] if spec["api"] == "pr0" else _marker_of(resp)
             rec["resp_type"] = type(resp).__name__
         except asyncio.CancelledError:
             rec["cancelled"] = True
@@ -275,6 +289,8 @@ def execute(case):
         w = ws.get(i)
         if w is None:
             continue
+        if spec["api"] == "pr0":
+            continue                      # nothing comes back for it; it must not disturb the others (judged below)
         if "result" in w:
             if w["result"] != spec["marker"]:
                 out.fail("own_reply", "foreign_reply", {"i": i, "got": w["result"], "want": spec["marker"], "api": spec["api"]})
@@ -290,7 +306,7 @@ def execute(case):
     for i, spec in enumerate(reqs):
         w = ws.get(i)
         r = peer.reply_done_at.get(i)
-        if w is None or r is None:
+        if w is None or r is None or spec["api"] == "pr0":
             continue
         deadline = w["t_send"] + timeout
         if spec.get("cancel_after") is not None:
@@ -313,6 +329,8 @@ def execute(case):
         for i, spec in enumerate(reqs):
             w = ws.get(i)
             if w is None or (i < at and peer.fault_kind != "write_error") or (peer.fault_kind == "dup" and i <= at):
+                continue
+            if spec["api"] == "pr0":
                 continue
             if i < at and peer.reply_done_at.get(i) is not None and peer.reply_done_at[i] < t_f - 1e-6:
                 continue                      # answered before the write failed
@@ -376,8 +394,8 @@ def strategy():
                 spec["cancel_after"] = draw(st.sampled_from([0.0, 0.0007, 0.0033, 0.0151, 0.0607]))
             reqs.append(spec)
         fault = None
-        if draw(st.integers(0, 2)) > 0:
-            fault = {"at": draw(st.integers(0, n - 1)),
+        if draw(st.integers(0, 2)) > 0 and any(r["api"] != "pr0" for r in reqs):
+            fault = {"at": draw(st.sampled_from([i for i, r in enumerate(reqs) if r["api"] != "pr0"])),
                      "kind": draw(st.sampled_from(["wrong_corr", "dup", "unsolicited", "truncated_body", "neg_size",
                                                    "huge_size", "eof", "reset", "write_error"])),
                      "byte": draw(st.integers(0, 40))}
